@@ -1,5 +1,5 @@
 import Mustache.Proofs.IdTableEvents
-import Mustache.Proofs.IdTableRefine
+import Mustache.Proofs.IdTablePack
 /-!
 # C01 — a handle is valid exactly while the entity it was issued for is alive
 
@@ -41,14 +41,6 @@ example : WF 0 sample ∧ NoWrap (run 0 sample) ∧ InRange (run 0 sample) := by
 example : WF 0 sampleLocked ∧ NoWrap (run 0 sampleLocked) ∧ InRange (run 0 sampleLocked) := by decide
 example : issuedOf (run 0 sample).evs = [⟨0, 0, 0⟩, ⟨1, 0, 0⟩, ⟨0, 1, 0⟩, ⟨2, 0, 0⟩, ⟨3, 0, 0⟩, ⟨1, 1, 0⟩] := by decide
 
-theorem mem_issuedOf (evs : List Ev) (e : Handle) : e ∈ issuedOf evs ↔ Ev.issued e ∈ evs := by
-  simp only [issuedOf, List.mem_filterMap]
-  constructor
-  · rintro ⟨ev, hev, h⟩
-    cases ev <;> simp at h
-    subst h; exact hev
-  · intro h; exact ⟨_, h, rfl⟩
-
 /-- **Validity is aliveness, for ANY handle** (issued or forged, any bit pattern): after every
 well-formed history `isEntityValid h` answers exactly whether the history made `h` alive — its creation
 took effect (at once, or at the install of the outermost unlock) and no destruction of it (checked
@@ -69,18 +61,8 @@ theorem valid_iff_alive (wid : Nat) (ops : List TOp) (hwf : WF wid ops) (hw : No
 
 example : (issuedOf (run 0 sample).evs).map (fun e => ((run 0 sample).tab.valid e, aliveB (run 0 sample).evs e)) =
     [(false, false), (false, false), (false, false), (true, true), (false, false), (true, true)] := by decide
-example : (run 0 sample).tab.valid ⟨0, 2, 0⟩ = false ∧ (run 0 sample).tab.slots[0]? = some ⟨1, 2⟩ := by decide
-
-/-- prefixes of a good history are good -/
-theorem prefix_good (wid : Nat) (ops ext : List TOp) (hwf : WF wid (ops ++ ext))
-    (hw : NoWrap (run wid (ops ++ ext))) (hr : InRange (run wid (ops ++ ext))) :
-    WF wid ops ∧ NoWrap (run wid ops) ∧ InRange (run wid ops) ∧
-    wfFrom (run wid ops) ext = true ∧ run wid (ops ++ ext) = runFrom (run wid ops) ext := by
-  unfold WF at hwf ⊢
-  rw [wfFrom_append, Bool.and_eq_true] at hwf
-  have e : run wid (ops ++ ext) = runFrom (run wid ops) ext := runFrom_append _ _ _
-  rw [e] at hw hr
-  exact ⟨hwf.1, hw.of_run, hr.of_run, hwf.2, e⟩
+/-- a never-issued pattern matching the version stored in a free slot is not valid -/
+example : (run 0 sample).tab.valid ⟨0, 2, 0⟩ = false ∧ (run 0 sample).tab.slots[0]? = some ⟨3, 2⟩ := by decide
 
 /-- **false for ever after destruction**: a handle whose creation took effect and that is not alive any
 more is never valid again, however the history continues (its id may be recycled any number of times) -/
@@ -112,14 +94,16 @@ theorem dead_forever (wid : Nat) (ops ext : List TOp) (hwf : WF wid (ops ++ ext)
   exact ⟨by rw [valid_iff_alive_any wid _ hwf hw hr]; exact hal, hal⟩
 
 example : ⟨0, 0, 0⟩ ∈ issuedOf (run 0 (sample.take 3)).evs ∧ reservedB (run 0 (sample.take 3)).evs ⟨0, 0, 0⟩ = false ∧
-    aliveB (run 0 (sample.take 3)).evs ⟨0, 0, 0⟩ = false ∧ sample.take 3 ++ sample.drop 3 = sample := by decide
+    aliveB (run 0 (sample.take 3)).evs ⟨0, 0, 0⟩ = false ∧ WF 0 (sample.take 3 ++ sample.drop 3) := by decide
 
 /-- the handles returned by creation calls are pairwise distinct (id, version, world) triples -/
 theorem issued_nodup (wid : Nat) (ops : List TOp) (hwf : WF wid ops) (hw : NoWrap (run wid ops))
     (hr : InRange (run wid ops)) : (issuedOf (run wid ops).evs).Nodup := by
   have ⟨si, ok⟩ := run_all wid ops hwf hr hw
   rw [ok.iss]
-  exact List.nodup_reverse.mpr si.tinv.fresh.nodup
+  unfold List.Nodup
+  rw [List.pairwise_reverse]
+  exact si.tinv.fresh.nodup.imp (fun h => h.symm)
 
 /-- no two live entities share an id (a fortiori a handle) -/
 theorem live_ids_distinct (wid : Nat) (ops : List TOp) (hwf : WF wid ops) (hw : NoWrap (run wid ops))
@@ -165,8 +149,8 @@ theorem freelist_wf (wid : Nat) (ops : List TOp) (hwf : WF wid ops) (hw : NoWrap
   · rintro ⟨a, b, c⟩
     exact ⟨a, fun h hh => b h ((ok.alive h).mpr hh), fun p hp => c p ((hres p).mpr hp)⟩
 
-example : (run 0 sample).tab.empty = 3 ∧ (run 0 sample).tab.next = 0 ∧
-    (run 0 sample).tab.slots = [⟨1, 2⟩, ⟨1, 1⟩, ⟨2, 0⟩, ⟨4, 1⟩] := by decide
+example : (run 0 sample).tab.empty = 2 ∧ (run 0 sample).tab.next = 0 ∧
+    (run 0 sample).tab.slots = [⟨3, 2⟩, ⟨1, 1⟩, ⟨2, 0⟩, ⟨4, 1⟩] := by decide
 example : (run 0 (sample.take 12)).tab.slots = [⟨0, 1⟩, ⟨1, 0⟩, ⟨2, 0⟩, ⟨4, 1⟩] := by decide
 
 /-- a handle returned by a creation under lock is not valid until its slot is installed at the
@@ -185,6 +169,17 @@ theorem locked_create_invisible (wid : Nat) (ops : List TOp) (hwf : WF wid ops) 
   have := hw e hi
   rw [e1] at this
   simp [Handle.null] at this
+
+/-- the link to the world model: whenever the id table of a WM state is the table of a good history
+(`Proofs/IdTableRefine.lean`, `IdTablePack.lean`: every WM operation acts on `tabOf w` as the corresponding
+`TOp`), `WM.isValid` answers aliveness -/
+theorem wm_valid_iff_alive (w : WM) (wid : Nat) (ops : List TOp) (hwf : WF wid ops) (hw : NoWrap (run wid ops))
+    (hr : InRange (run wid ops)) (htab : tabOf w = (run wid ops).tab) (h : Handle) :
+    w.isValid h = aliveB (run wid ops).evs h := by
+  rw [isValid_tab, htab]
+  exact valid_iff_alive_any wid ops hwf hw hr h
+
+example : tabOf (({} : WM).allocId).1 = (run 0 [.alloc]).tab := by decide
 
 example : reservedB (run 0 sampleLocked).evs ⟨2, 0, 0⟩ = true ∧ reservedB (run 0 sampleLocked).evs ⟨3, 0, 0⟩ = true ∧
     (run 0 sampleLocked).tab.lockDepth = 2 := by decide
